@@ -103,6 +103,7 @@ pub struct Sim {
     pub last: Class,
     pub last_resp: Option<Response>,
     pub last_err: String,
+    pub tx_snap: Option<(MockStorage, bool)>,
 }
 
 fn s_status(s: &milky_way::staking::BatchStatus) -> &'static str {
@@ -229,6 +230,7 @@ impl Sim {
             last: Class::Err,
             last_resp: None,
             last_err: String::new(),
+            tx_snap: None,
         }
     }
     fn emit(&mut self, s: String) {
@@ -667,6 +669,19 @@ impl Sim {
         }
         match toks[0] {
             "cfg" => {}
+            "tx_begin" => {
+                self.tx_snap = Some((clone_storage(&self.deps.storage), self.inst));
+            }
+            "tx_commit" => {
+                self.tx_snap = None;
+            }
+            "tx_abort" => {
+                if let Some((s, i)) = self.tx_snap.take() {
+                    self.deps.storage = s;
+                    self.inst = i;
+                }
+                self.emit("tx_abort".to_string());
+            }
             "inst" => {
                 let msg = staking::msg::InstantiateMsg {
                     native_chain_config: staking::types::UnsafeNativeChainConfig {
